@@ -59,6 +59,7 @@ type c04Res struct {
 	RacerOK  int       `json:"racer_ok"`
 	RacerErr int       `json:"racer_err"`
 	Trace    []string  `json:"trace,omitempty"`
+	Conn     *connLine `json:"conn,omitempty"` // the recorded schedule as conn.run tokens + observed outcomes
 	Fails    []c20Fail `json:"fails,omitempty"`
 	ExitNow  bool      `json:"-"`
 }
@@ -70,6 +71,8 @@ type c04ReqRec struct {
 	racer     string
 	typ       byte
 	off       uint64
+	path      string
+	id        uint32
 	delivered bool
 }
 
@@ -134,7 +137,15 @@ func c04Run(cs c04Case, checkGoroutines bool) (res c04Res) {
 	nreq := 0
 	jitter := cs.Racers > 0
 	jrng := rand.New(rand.NewSource(cs.Seed ^ 0x5bd1))
+	var sendMu sync.Mutex
+	var evs []connEv // arrivals, complete replies and the end of the reply stream, in the order this peer saw / did them
 	doCut := func() {
+		if cutDone.Load() {
+			return
+		}
+		// sendMu: the log must show a reply before the cut exactly when it was delivered before the cut
+		sendMu.Lock()
+		defer sendMu.Unlock()
 		if cutDone.Load() {
 			return
 		}
@@ -146,6 +157,7 @@ func c04Run(cs c04Case, checkGoroutines bool) (res c04Res) {
 		mu.Lock()
 		res.CutAt = sent
 		trace = append(trace, fmt.Sprintf("cut@%d", sent))
+		evs = append(evs, connEv{K: "E"})
 		mu.Unlock()
 		cutDone.Store(true)
 	}
@@ -162,7 +174,7 @@ func c04Run(cs c04Case, checkGoroutines bool) (res c04Res) {
 			q, derr := cliDecodeReq(p)
 			// A request is attributed to its call by content, never by arrival time: a caller may return
 			// (on the broadcast error) before this goroutine has dequeued all of its requests.
-			rec := &c04ReqRec{call: op.Name, typ: p.Typ, off: q.Off}
+			rec := &c04ReqRec{call: op.Name, typ: p.Typ, off: q.Off, path: q.Path, id: p.ID()}
 			switch {
 			case derr != nil:
 			case strings.HasPrefix(q.Path, "race-"):
@@ -176,6 +188,7 @@ func c04Run(cs c04Case, checkGoroutines bool) (res c04Res) {
 			}
 			mu.Lock()
 			recs = append(recs, rec)
+			evs = append(evs, connEv{K: "a", ID: p.ID()})
 			nreq++
 			n := nreq
 			trace = append(trace, fmt.Sprintf("req#%d typ%d", p.ID(), p.Typ))
@@ -208,14 +221,18 @@ func c04Run(cs c04Case, checkGoroutines bool) (res c04Res) {
 				doCut()
 				continue
 			}
-			if peer.Reply(frame) == nil {
+			sendMu.Lock()
+			rerr := peer.Reply(frame)
+			if rerr == nil {
 				mu.Lock()
 				rec.delivered = true
+				evs = append(evs, connEv{K: "r", ID: p.ID(), T: connTok(frame)})
 				sent += len(frame)
 				res.Frames = append(res.Frames, len(frame))
 				trace = append(trace, fmt.Sprintf("reply#%d full", p.ID()))
 				mu.Unlock()
 			}
+			sendMu.Unlock()
 			if budget >= 0 && len(frame) == budget {
 				doCut()
 			}
@@ -502,6 +519,89 @@ func c04Run(cs c04Case, checkGoroutines bool) (res c04Res) {
 			}
 		}
 	}
+
+	// ---- the schedule for the Lean connection model: one model caller per request ----
+	if cs.Fault != "none" && cs.Fault != "selftest-leak" && dry != nil {
+		obs := connObs{Events: evs, Known: map[uint32]string{}, Shutdown: true}
+		single := func(delivered bool, errText string) string {
+			k := connClass(errText)
+			if delivered && k != "lost" && k != "senderr" {
+				return "reply" // the call got its reply (which may itself be an error status)
+			}
+			if !delivered && (k == "lost" || k == "senderr") {
+				return k
+			}
+			if delivered {
+				return k // a transport error although the reply was delivered: let the comparison show it
+			}
+			return ""
+		}
+		onWire := map[string][]*c04ReqRec{} // call name -> its requests
+		racerRec := map[string]*c04ReqRec{}
+		for _, rec := range recs {
+			if rec.racer != "" {
+				racerRec[rec.racer] = rec
+			} else {
+				onWire[rec.call] = append(onWire[rec.call], rec)
+			}
+		}
+		for _, rc := range racerCalls {
+			if rc.hang {
+				continue
+			}
+			errText := rc.errText
+			if rec := racerRec[rc.path]; rec != nil {
+				if k := single(rec.delivered, errText); k != "" {
+					obs.Known[rec.id] = k
+				}
+			} else if k := connClass(errText); k == "lost" || k == "senderr" {
+				obs.OffWire = append(obs.OffWire, k)
+			}
+		}
+		for _, cl := range res.Calls {
+			name := cl.Name
+			isSingle := false
+			if strings.HasPrefix(name, "after/") {
+				isSingle = name == "after/Stat" || name == "after/ReadDir"
+			} else {
+				for j := range dry.Calls {
+					if dry.Calls[j].Name == name && dry.Calls[j].NReq == 1 {
+						isSingle = true
+					}
+				}
+			}
+			var mine []*c04ReqRec
+			if strings.HasPrefix(name, "after/") {
+				for _, rec := range onWire["after"] {
+					if (name == "after/Stat" && rec.typ == wire.Stat) || (name == "after/ReadDir" && rec.typ == wire.Opendir) {
+						mine = append(mine, rec)
+					}
+				}
+			} else {
+				mine = onWire[name]
+			}
+			switch {
+			case isSingle && len(mine) == 1:
+				if k := single(mine[0].delivered, cl.Err); k != "" {
+					obs.Known[mine[0].id] = k
+				}
+			case isSingle && len(mine) == 0:
+				if k := connClass(cl.Err); k == "lost" || k == "senderr" {
+					obs.OffWire = append(obs.OffWire, k)
+				}
+			case !cl.Failed:
+				// a multi-request call that succeeded: every request whose reply was delivered got it
+				for _, rec := range mine {
+					if rec.delivered {
+						obs.Known[rec.id] = "reply"
+					}
+				}
+			}
+		}
+		// ids start at 1 in these sessions
+		l := obs.build()
+		res.Conn = &l
+	}
 	return
 }
 
@@ -627,6 +727,9 @@ func checkC04(c *lib.Ctx) {
 		return
 	}
 	racerOK, racerErr := 0, 0
+	var connLines []connLine
+	var connInputs []any
+	connReqs := 0
 	for i, cs := range cases {
 		if i == selftest {
 			var res c04Res
@@ -661,6 +764,11 @@ func checkC04(c *lib.Ctx) {
 		var res c04Res
 		json.Unmarshal(results[i], &res)
 		racerOK += res.RacerOK
+		if res.Conn != nil && len(res.Fails) == 0 {
+			connLines = append(connLines, *res.Conn)
+			connInputs = append(connInputs, cs)
+			connReqs += res.Conn.NReq
+		}
 		racerErr += res.RacerErr
 		r.Hist(fmt.Sprintf("in-flight-at-loss/%d", min(res.InFlight, 9)))
 		for _, cl := range res.Calls {
@@ -685,7 +793,9 @@ func checkC04(c *lib.Ctx) {
 		}
 	}
 	r.Note("racing calls observed: %d succeeded (reply delivered before the loss), %d failed", racerOK, racerErr)
-	r.Skip("no Lean driver for the connection model (lean/Sftp/Driver/ClientConn.lean, op `conn.run`) exists yet: the forced schedule of each case is recorded as an abstract trace (req#id, reply#id full|partial, cut@bytes, fail-input; per-call need=ok|lost and failed=…) and shown in the samples, but not compared with a model run")
+	n := connCompare(c, "c04", connLines, connInputs)
+	r.Note("connection model: %d recorded schedules (%d requests on the wire; arrivals, complete replies, the end of the reply stream, then C B and the returns) replayed with conn.run and compared (enabledness, outcome reply:<sid>:<token>|lost|senderr of every request whose result the harness can attribute, wire, closed=1, framed, recv=stopped)", n, connReqs)
+	r.Note("not expressible / not observable for conn.run: a PARTIAL reply (only the E that follows it); the byte position of a failed client→server write (a caller whose write failed is replayed as l x f without header, whatever part of the frame had left); per-request results inside a multi-request call that failed (masked); the requests of the multi-chunk calls started after the fault, which never reach the wire (only the ids they consumed appear, as callers that draw an id and stay pending); the relative order of putChannel/Lock steps of different callers and of f against B (any order consistent with the observed wire order and the observed error class is chosen)")
 }
 
 var _ = peers.ErrTimeout
